@@ -606,9 +606,227 @@ def _catalogue_names():
     return names
 
 
+KIND_CLASSES = {"font": ("font.py", "Font"), "layerSet": ("layerSet.py", "LayerSet"), "layer": ("layer.py", "Layer"),
+                "glyph": ("glyph.py", "Glyph"), "contour": ("contour.py", "Contour"), "component": ("component.py", "Component"),
+                "anchor": ("anchor.py", "Anchor"), "guideline": ("guideline.py", "Guideline"), "image": ("image.py", "Image"),
+                "lib": ("lib.py", "Lib"), "info": ("info.py", "Info"), "kerning": ("kerning.py", "Kerning"),
+                "groups": ("groups.py", "Groups"), "features": ("features.py", "Features"), "images": ("imageSet.py", "ImageSet"),
+                "data": ("dataSet.py", "DataSet")}
+BASE_CLASSES = ("BaseObject", "BaseDictObject", "BaseDictCompareObject")
+# `for x in <iterable>: x.<method>(…)` inside a method: which children the loop walks
+CHILD_ITERS = {"self": "contour", "_contours": "contour", "components": "component", "_components": "component",
+               "anchors": "anchor", "_anchors": "anchor"}
+
+
+def _is_self_attr(node, attr=None):
+    return (isinstance(node, ast.Attribute) and isinstance(node.value, ast.Name) and node.value.id == "self"
+            and (attr is None or node.attr == attr))
+
+
+def _class_namespace(repo, fn, cls, bases_ns):
+    """functions and property setters visible in class `cls` (its own, then those of the defcon base classes it names)"""
+    tree = ast.parse(open(os.path.join(repo, "Lib", "defcon", "objects", fn)).read())
+    cnode = [n for n in tree.body if isinstance(n, ast.ClassDef) and n.name == cls]
+    if not cnode:
+        raise ValueError("class %s not found in %s" % (cls, fn))
+    cnode = cnode[0]
+    funcs, setters = {}, {}
+    for b in cnode.bases:
+        bname = getattr(b, "id", None)
+        if bname in bases_ns:
+            funcs.update(bases_ns[bname][0])
+            setters.update(bases_ns[bname][1])
+    inherited = set(funcs)
+    for n in cnode.body:
+        if isinstance(n, ast.FunctionDef):
+            funcs[n.name] = n
+        if isinstance(n, ast.Assign) and isinstance(n.value, ast.Call) and getattr(n.value.func, "id", None) == "property":
+            args = n.value.args
+            if len(args) >= 2 and isinstance(args[1], ast.Name):
+                setters[n.targets[0].id] = args[1].id
+            elif len(args) >= 2 and isinstance(args[1], ast.Attribute):
+                setters[n.targets[0].id] = args[1].attr          # property(BaseObject._get_dirty, _set_dirty)
+    return funcs, setters, tree, inherited - {n.name for n in cnode.body if isinstance(n, ast.FunctionDef)}
+
+
+def _analyse(funcs, setters):
+    """per function: the roles it reaches directly, the functions of the class it runs, and the statements that matter
+    for the guard"""
+    direct, calls = {}, {}
+
+    def callees_of_target(t):
+        # self.p = v / self.p += v  -> the setter of property p ;  self[k] = v -> __setitem__ ; del self[k] -> __delitem__
+        res = set()
+        if _is_self_attr(t) and t.attr in setters and t.attr != "dirty":
+            res.add(setters[t.attr])
+        if isinstance(t, ast.Subscript) and isinstance(t.value, ast.Name) and t.value.id == "self":
+            res.add("__setitem__")
+        return res
+    for name, f in funcs.items():
+        d, cs = set(), set()
+        for n in ast.walk(f):
+            targets = []
+            if isinstance(n, ast.Assign):
+                targets = n.targets
+            elif isinstance(n, ast.AugAssign):
+                targets = [n.target]
+            for t in targets:
+                if _is_self_attr(t, "dirty"):
+                    if not (isinstance(n, ast.Assign) and isinstance(n.value, ast.Constant) and n.value.value is False):
+                        d.add("self")
+                elif isinstance(t, ast.Subscript) and _is_self_attr(t.value, "lib"):
+                    d.add("lib")
+                elif isinstance(t, ast.Attribute) and _is_self_attr(t.value, "_image") and not t.attr.startswith("_"):
+                    d.add("image")
+                elif isinstance(t, ast.Attribute) and _is_self_attr(t.value, "info") and t.attr == "dirty":
+                    d.add("info")
+                cs |= callees_of_target(t)
+            if isinstance(n, ast.Delete):
+                for t in n.targets:
+                    if isinstance(t, ast.Subscript) and _is_self_attr(t.value, "lib"):
+                        d.add("lib")
+                    if isinstance(t, ast.Subscript) and isinstance(t.value, ast.Name) and t.value.id == "self":
+                        cs.add("__delitem__")
+            if isinstance(n, ast.Call) and isinstance(n.func, ast.Attribute):
+                if isinstance(n.func.value, ast.Name) and n.func.value.id == "self":
+                    cs.add(n.func.attr)
+                if _is_self_attr(n.func.value, "lib") and n.func.attr in ("clear", "update", "pop", "popitem", "setdefault"):
+                    d.add("lib")
+                if _is_self_attr(n.func.value, "_image") and n.func.attr in ("clear", "update"):
+                    d.add("image")
+            if isinstance(n, ast.For) and isinstance(n.target, ast.Name):
+                it = n.iter
+                if isinstance(it, ast.Call) and getattr(it.func, "id", None) == "reversed" and it.args:
+                    it = it.args[0]
+                src = "self" if (isinstance(it, ast.Name) and it.id == "self") else (it.attr if _is_self_attr(it) else None)
+                if src in CHILD_ITERS:
+                    for m in ast.walk(n):
+                        if (isinstance(m, ast.Call) and isinstance(m.func, ast.Attribute) and isinstance(m.func.value, ast.Name)
+                                and m.func.value.id == n.target.id and m.func.attr in ("move", "reverse")):
+                            d.add(CHILD_ITERS[src])
+        direct[name] = d
+        calls[name] = {c for c in cs if c in funcs}
+    reach = {n: set(d) for n, d in direct.items()}
+    changed = True
+    while changed:
+        changed = False
+        for n in funcs:
+            for c in calls[n]:
+                if not reach[c] <= reach[n]:
+                    reach[n] |= reach[c]
+                    changed = True
+    return direct, calls, reach
+
+
+def _has_compare(test, ops):
+    return any(isinstance(c, ast.Compare) and any(isinstance(o, ops) for o in c.ops) for c in ast.walk(test))
+
+
+def _guards(funcs, setters, direct, calls, reach):
+    """a function is guarded when it contains the comparison that keeps a re-assignment silent: `if old == new: return`
+    (also `if not len(self): return` for clear), or `if old != new:` around what changes the object; or when all it
+    does is to run guarded functions of the class"""
+    def effect_in(nodes, name):
+        for st in nodes:
+            for n in ast.walk(st):
+                if isinstance(n, (ast.Assign, ast.AugAssign)):
+                    ts = n.targets if isinstance(n, ast.Assign) else [n.target]
+                    if any(_is_self_attr(t, "dirty") or (isinstance(t, ast.Subscript) and (
+                            (isinstance(t.value, ast.Name) and t.value.id == "self") or _is_self_attr(t.value, "lib"))) for t in ts):
+                        return True
+                    if any(_is_self_attr(t) and t.attr in setters and reach.get(setters[t.attr]) for t in ts):
+                        return True
+                if isinstance(n, ast.Call) and isinstance(n.func, ast.Attribute):
+                    if n.func.attr == "postNotification":
+                        return True
+                    if isinstance(n.func.value, ast.Name) and n.func.value.id == "self" and reach.get(n.func.attr):
+                        return True
+        return False
+    own = {}
+    for name, f in funcs.items():
+        g = False
+        for n in ast.walk(f):
+            if not isinstance(n, ast.If):
+                continue
+            early = len(n.body) >= 1 and isinstance(n.body[-1], ast.Return)
+            if early and (_has_compare(n.test, (ast.Eq,)) or (isinstance(n.test, ast.UnaryOp) and isinstance(n.test.op, ast.Not))):
+                g = True
+            if _has_compare(n.test, (ast.NotEq,)) and effect_in(n.body, name):
+                g = True
+        own[name] = g
+    res = dict(own)
+    changed = True
+    while changed:
+        changed = False
+        for n in funcs:
+            if not res[n] and not direct[n] and calls[n]:
+                eff = [c for c in calls[n] if reach[c]]
+                if eff and all(res[c] for c in eff):
+                    res[n] = True
+                    changed = True
+    return res
+
+
+def _extract_facts(repo):
+    """(kind, method or `prop=`) -> (roles reached, guarded) for every public method / property setter of every class"""
+    bases_ns = {}
+    btree = ast.parse(open(os.path.join(repo, "Lib", "defcon", "objects", "base.py")).read())
+    for b in BASE_CLASSES:
+        cn = [n for n in btree.body if isinstance(n, ast.ClassDef) and n.name == b][0]
+        funcs, setters = {}, {}
+        for bb in cn.bases:
+            if getattr(bb, "id", None) in bases_ns:
+                funcs.update(bases_ns[bb.id][0])
+                setters.update(bases_ns[bb.id][1])
+        for n in cn.body:
+            if isinstance(n, ast.FunctionDef):
+                funcs[n.name] = n
+            if isinstance(n, ast.Assign) and isinstance(n.value, ast.Call) and getattr(n.value.func, "id", None) == "property":
+                args = n.value.args
+                if len(args) >= 2 and isinstance(args[1], ast.Name):
+                    setters[n.targets[0].id] = args[1].id
+        bases_ns[b] = (funcs, setters)
+    facts = {}
+    for kind, (fn, cls) in KIND_CLASSES.items():
+        funcs, setters, tree, inherited = _class_namespace(repo, fn, cls, bases_ns)
+        if kind == "info":
+            # the attribute setters of Info are made by init_property: its nested `setter` is every attribute's setter
+            ip = [n for n in tree.body if isinstance(n, ast.FunctionDef) and n.name == "init_property"]
+            inner = [n for n in (ip[0].body if ip else []) if isinstance(n, ast.FunctionDef) and n.name == "setter"]
+            if inner:
+                funcs = dict(funcs)
+                setters = dict(setters)
+                for e in CATALOGUE["info"]:
+                    attr = e[0][:-1]
+                    funcs["_set_" + attr] = inner[0]
+                    setters[attr] = "_set_" + attr
+        direct, calls, reach = _analyse(funcs, setters)
+        guard = _guards(funcs, setters, direct, calls, reach)
+        # (an inherited method that reaches nothing - addObserver, getRepresentation … - is left out; one the class
+        # defines itself is listed even when it reaches nothing: that is a decided fact)
+        for name in sorted(funcs):
+            if not name.startswith("_") or name in ("__setitem__", "__delitem__"):
+                if reach[name] or name not in inherited:
+                    facts[(kind, name)] = (sorted(reach[name]), guard[name])
+        for prop, sname in sorted(setters.items()):
+            if sname in funcs and not prop.startswith("_") and (reach[sname] or sname not in inherited):
+                facts[(kind, prop + "=")] = (sorted(reach[sname]), guard[sname])
+    return facts
+
+
+def _driven_names():
+    """every (kind, name) the harness can send to the model: catalogue entries and the variants decided before a call"""
+    res = {}
+    for kind, entries in CATALOGUE.items():
+        res[kind] = sorted({e[0] for e in entries} | set(VARIANTS.get(kind, [])))
+    return res
+
+
 def extract(repo, lean_dir):
     found = _extract_mutators(repo)
     cat = _catalogue_names()
+    facts = _extract_facts(repo)
+    driven = _driven_names()
 
     def lst(xs):
         return "[" + ", ".join('"%s"' % x for x in xs) + "]"
@@ -623,6 +841,16 @@ def extract(repo, lean_dir):
     lines += ["]", "", "/-- (kind, mutators deliberately not driven here; reasons in harness/props/c02.py:EXEMPT) -/",
               "def exempt : List (String × List String) := ["]
     lines.append(",\n".join('  ("%s", %s)' % (k, lst(sorted(EXEMPT.get(k, {})))) for k in sorted(found)))
+    lines += ["]", "", "/-- (kind, every name the harness can hand to the model: catalogue entries and their variants) -/",
+              "def driven : List (String × List String) := ["]
+    lines.append(",\n".join('  ("%s", %s)' % (k, lst(driven[k])) for k in sorted(driven)))
+    lines += ["]", "",
+              "/-- what the AST says about a public method / property setter (`x=`) of the class of a kind: which objects its body,",
+              "or a method of the class it runs, sets dirty or writes (`self`, `lib`, `image`, `info`, `contour` / `component` / `anchor`",
+              "for a loop that calls a mutator on each), and whether it carries the comparison that keeps a re-assignment silent -/",
+              "structure Facts where", "  kind : String", "  method : String", "  reaches : List String", "  guard : Bool", "",
+              "def facts : List Facts := ["]
+    lines.append(",\n".join('  ⟨"%s", "%s", %s, %s⟩' % (k, m, lst(r), "true" if g else "false") for (k, m), (r, g) in sorted(facts.items())))
     lines += ["]", "", "end DefconModel.Gen.Mutators", ""]
     text = "\n".join(lines)
     path = os.path.join(lean_dir, "DefconModel", "Gen", "Mutators.lean")
@@ -633,7 +861,8 @@ def extract(repo, lean_dir):
             f.write(text)
         changed.append("Gen/Mutators.lean")
     n = sum(len(v) for v in found.values())
-    return changed, dict(obligations=1, classes=len(found), mutators_found=n)
+    return changed, dict(obligations=3, classes=len(found), mutators_found=n, method_facts=len(facts),
+                         names_driven=sum(len(v) for v in driven.values()))
 
 
 # ---------------------------------------------------------------------------------------
